@@ -24,7 +24,10 @@
 (*                                                                         *)
 (* Named deviation (what the unchanged code does, DESIGN F15):             *)
 (*   shared-self-copy-assign-sole-owner:  `s = s` on a shared_ptr that is  *)
-(*   the only owner destroys the object and keeps the (dangling) pointer.  *)
+(*   the only owner destroys the object and keeps the (dangling) pointer   *)
+(*   (A); if s is null but owns a control block of its own, the control    *)
+(*   block is freed and used again: nothing observable, the process may    *)
+(*   die (B).  See AssignCopy / AssignCopySelfDev.                         *)
 (***************************************************************************)
 EXTENDS Naturals, Sequences, FiniteSets, TLC, Json
 
@@ -81,7 +84,8 @@ SoleOwner(v) == own[v] # Null /\ \A w \in scope \ {v} : own[w] # own[v]
 \*  get[i]   object whose address get() returns (0 = nullptr, 9 = not in scope)
 \*  live[o]  the instance counter says object o is alive
 \*  died     objects whose destructor ran during this step
-\*  ret      value returned by release() (9 for other operations)
+\*  ret      value returned by release(); for CtorAdopt/ResetAdopt/RawDelete the raw pointer that is
+\*           passed in (an argument, echoed by the replayer); 9 for every other operation
 \*  same     v == w for the pairs (1,2) (1,3) (2,3) of same-kind variables: "T" "F", "-" not applicable
 SameK(i, j, sc, ow) ==
   LET v == Vars[i] w == Vars[j] IN
@@ -257,6 +261,9 @@ Property == DestroyedAtMostOnce /\ LiveIffOwned /\ UniqueExclusive /\ RawExclusi
 \* AsImplemented (Dev = the modelled deviations): every way of breaking the property goes
 \* through a named deviation
 PropertyOrDev == Property \/ devUsed # {}
+\* ... and the states reached without any deviation (exactly the states of the Dev = {} machine,
+\* because a deviating step is terminal) satisfy the property
+IdealHolds == (devUsed = {}) => Property
 
 (* ---- behaviour export ---------------------------------------------------- *)
 Born == {o \in Obj : ost[o] # "unborn"}
